@@ -8,3 +8,13 @@ add("C03", "exploration",
     "Trusted: harness/ref encoder+decoder (self-tested by Encode/Decode identity and strict validation of its own output). Only in-memory 64-bit platforms; 32-bit int overflow branches are not explored.",
     "property-based differential testing against an independent spec decoder (rapid), lock-step walk",
     "DESIGN.md section 3, C03")
+add("C04", "exploration",
+    "Generated build programs (all object kinds, data/pointer sets at every width, moves, documented copies, overwrites, re-rooting, capabilities, allocations from 0 to >4 KiB) are interpreted against the public builder API in five arena configurations (incl. an exact-capacity arena that forces double-far pointers and dirty spare capacity) next to a reference model; the tree read back through the getters must equal the model after every mutating step and at the end, for attached and unattached objects, and again after each of the four serialisation paths with drawn reader chunkings.",
+    "Trusted: the model in harness/build (mirrors only documented semantics), rapid. Aliasing between a moved object's old handle and its new location is never relied upon.",
+    "model-based property testing of the builder API (rapid op scripts vs reference model), round trips",
+    "DESIGN.md section 3, C04/C05")
+add("C05", "exploration",
+    "The same generated build programs; the Marshal() output is checked by an independent unframer and an independent STRICT spec decoder (bounds, landing-pad shapes, composite word counts, zero padding), the decoded tree must equal the model, all reached objects and pads must be pairwise disjoint, unset storage must read zero also on dirty arenas, and MarshalPacked must be decodable by the independent unpacker.",
+    "Trusted: harness/ref strict decoder/unframer/unpacker and the build model.",
+    "model-based property testing with an independent strict decoder as validity oracle (rapid)",
+    "DESIGN.md section 3, C04/C05")
